@@ -1876,3 +1876,80 @@ Proof.
   - intros [l [Hl [H|[H|[]]]]]; exists l; split; auto.
   - intros [l [Hl [H|H]]]; exists l; (split; [exact Hl|]); subst; cbn; auto.
 Qed.
+
+(* ---------- dial_address at the level of the whole state ---------- *)
+
+(* the address is already stored: its record is kept (score 0 = rediscovery), then the result of
+   the dial re-scores exactly it *)
+Lemma step_dial_addr_known c k st a res vs t q z0 :
+  dial_addr_check c st a = DAOk t q -> find a (get_or_empty q (bk st)) = Some z0 ->
+  let sc := match res with Some e => error_score k e | None => sc_established k end in
+  sc <> 0 ->
+  let s := get_or_empty q (bk st) in
+  let st' := fst (step c k st (ODialAddr a res vs)) in
+  (exists s', get q (bk st') = Some s' /\ find a s' = Some sc /\ keys s' = keys s /\
+              forall b, b <> a -> find b s' = find b s) /\
+  (forall p, p <> q -> get p (bk st') = get p (bk st)) /\
+  lst st' = lst st /\ held st' = held st /\ pubs st' = pubs st.
+Proof.
+  intros Hd Hf sc Hsc. cbn [step]. rewrite Hd.
+  rewrite (insert_rediscovery k _ a (hd_error vs) z0 Hf).
+  destruct (insert_rescore k (get_or_empty q (bk st)) a sc (hd_error vs) z0 Hf Hsc) as [_ [H1 [H2 H3]]].
+  fold sc. destruct (insert k (get_or_empty q (bk st)) a sc (hd_error vs)) as [s' r].
+  cbn [fst set_bk bk lst held pubs] in *. repeat split.
+  - exists s'. rewrite get_put_same. repeat split; assumption.
+  - intros p Hp. apply get_put_other. exact Hp.
+Qed.
+
+(* the address is new and there is room: it is remembered, with the score of the dial's result
+   (no bonus: the bonus went to the score-0 record stored before dialing) *)
+Lemma step_dial_addr_new c k st a res vs t q :
+  dial_addr_check c st a = DAOk t q -> find a (get_or_empty q (bk st)) = None ->
+  (length (get_or_empty q (bk st)) < cap k)%nat ->
+  let sc := match res with Some e => error_score k e | None => sc_established k end in
+  sc <> 0 ->
+  let s := get_or_empty q (bk st) in
+  let st' := fst (step c k st (ODialAddr a res vs)) in
+  (exists s', get q (bk st') = Some s' /\ find a s' = Some sc /\ keys s' = keys s ++ [a] /\
+              forall b, b <> a -> find b s' = find b s) /\
+  (forall p, p <> q -> get p (bk st') = get p (bk st)).
+Proof.
+  intros Hd Hf Hroom sc Hsc. cbn [step]. rewrite Hd.
+  rewrite (insert_room k _ a 0 (hd_error vs) Hf Hroom).
+  set (s1 := get_or_empty q (bk st) ++ [(a, new_score k a 0)]).
+  assert (Hf1 : find a s1 = Some (new_score k a 0)).
+  { unfold s1. rewrite find_app, Hf. cbn [find]. rewrite maddr_eqb_refl. reflexivity. }
+  destruct (insert_rescore k s1 a sc (hd_error vs) _ Hf1 Hsc) as [_ [H1 [H2 H3]]].
+  fold sc. destruct (insert k s1 a sc (hd_error vs)) as [s' r].
+  cbn [fst set_bk bk] in *. split.
+  - exists s'. rewrite get_put_same. repeat split; try assumption.
+    + rewrite H2. unfold s1. rewrite keys_app. reflexivity.
+    + intros b Hb. rewrite (H3 b Hb). unfold s1. rewrite find_app. cbn [find].
+      rewrite (maddr_eqb_neq a b) by congruence. destruct (find b (get_or_empty q (bk st))); reflexivity.
+  - intros p Hp. apply get_put_other. exact Hp.
+Qed.
+
+(* ---------- below the bound no addition ever changes a recorded score ---------- *)
+
+Lemma insert_all_keeps_scores k s l vs b z :
+  NoDup (keys s) -> (length s + length l <= cap k)%nat -> find b s = Some z ->
+  find b (fst (insert_all k s l vs)) = Some z /\ snd (insert_all k s l vs) = false.
+Proof.
+  revert s vs. induction l as [|a t IH]; intros s vs Hnd Hlen Hb; cbn [insert_all]; [split; [exact Hb | reflexivity]|].
+  cbn [length] in Hlen.
+  set (v := match vs with v :: _ => Some v | [] => None end).
+  destruct (find a s) as [z0|] eqn:Ha.
+  - rewrite (insert_rediscovery k s a v z0 Ha).
+    destruct (IH s vs Hnd ltac:(lia) Hb) as [H1 H2].
+    destruct (insert_all k s t vs) as [s2 bad]. cbn [fst snd] in *. split; assumption.
+  - rewrite (insert_room k s a 0 v Ha ltac:(lia)).
+    set (s1 := s ++ [(a, new_score k a 0)]).
+    assert (Hnd1 : NoDup (keys s1)).
+    { unfold s1. rewrite keys_app. cbn [keys map]. apply nodup_snoc; [exact Hnd|].
+      apply find_none_notin. exact Ha. }
+    assert (Hb1 : find b s1 = Some z) by (unfold s1; rewrite find_app, Hb; reflexivity).
+    assert (Hl1 : (length s1 + length t <= cap k)%nat).
+    { unfold s1. rewrite app_length. cbn [length]. lia. }
+    destruct (IH s1 vs Hnd1 Hl1 Hb1) as [H1 H2].
+    destruct (insert_all k s1 t vs) as [s2 bad]. cbn [fst snd] in *. split; assumption.
+Qed.
